@@ -169,7 +169,7 @@ def entry_points(c, tgt, full, up=True):
 def odd_state_sweep(chk, rng, raised):
     """Odd free-attribute values anywhere in dense form documents x every pseudo-class x every element as the target."""
     quick = chk.tier == 'quick'
-    n_docs = 220 if quick else 4000
+    n_docs = 220 if quick else 2000
     n_sel = 6 if quick else 12
     docs_with_form_submit = targets = nonvacuous = odd_placed = 0
     compiled = {}
@@ -320,7 +320,7 @@ def deep_sweep(chk, rng, raised):
     import bs4
     import soupsieve as sv
     quick = chk.tier == 'quick'
-    depth = int(sys.getrecursionlimit() * (1.15 if quick else 4))
+    depth = int(sys.getrecursionlimit() * (1.15 if quick else 2.5))
     shapes = DEEP_SHAPES
     sels = list(ALL_PSEUDO) + ['div div span', 'p > * > *', '* ~ *', ':not(:dir(rtl))', ':has(#leaf)', 'p :dir(rtl)', '#leaf:dir(ltr)',
                                ':is(fieldset, b, span, div):disabled', 'form :default', ':lang(de)']
@@ -412,7 +412,7 @@ def rootless_sweep(chk, rng, raised):
     of calls made; stops at the first call that does not return (each one costs the watchdog's whole limit)."""
     import framework
     quick = chk.tier == 'quick'
-    n_docs = 90 if quick else 3000
+    n_docs = 90 if quick else 1500
     compiled = {}
 
     def comp(sel):
@@ -527,7 +527,7 @@ def run(chk):
     driver_ok = proof_ok or chk.build(['svdriver'])[0]
     rng = random.Random(chk.seed)
     quick = chk.tier == 'quick'
-    n_docs = 400 if quick else 15000
+    n_docs = 400 if quick else 7000
     raised, corr_bad = [], []
     evaluations = nontriv = 0
     lines, expect = [], []
